@@ -20,7 +20,7 @@ import (
 	"github.com/libp2p/go-libp2p/core/protocol"
 )
 
-var c16Positions = []string{"before_connect", "stream_in_flight", "connected", "in_mesh", "in_validation", "in_validation_queue", "disconnected"}
+var c16Positions = []string{"before_connect", "stream_in_flight", "connected", "in_mesh", "in_fanout", "in_validation", "in_validation_queue", "disconnected"}
 
 func TestVerifC16Blacklist(t *testing.T) {
 	type combo struct {
@@ -31,7 +31,7 @@ func TestVerifC16Blacklist(t *testing.T) {
 		for _, impl := range []string{"map", "timecached"} {
 			for _, route := range []string{"BlacklistPeer", "Add"} {
 				for _, pos := range c16Positions {
-					if pos == "in_mesh" && router != "gossipsub" {
+					if (pos == "in_mesh" || pos == "in_fanout") && router != "gossipsub" {
 						continue
 					}
 					combos = append(combos, combo{router, impl, route, pos})
@@ -199,7 +199,7 @@ func TestVerifC16Blacklist(t *testing.T) {
 						note("X subscribed and grafted on its own stream while the node's stream is being opened")
 					}
 				}
-			case "connected", "in_mesh", "in_validation", "in_validation_queue", "disconnected":
+			case "connected", "in_mesh", "in_fanout", "in_validation", "in_validation_queue", "disconnected":
 				if !connectX() {
 					c.Inconclusive("attach X")
 					return
@@ -209,6 +209,17 @@ func TestVerifC16Blacklist(t *testing.T) {
 					r.ToNextGap(50 * time.Millisecond)
 					if _, in := nd.Snap().Mesh["t"][X.ID()]; !in {
 						c.Inconclusive("X not in mesh")
+						return
+					}
+				}
+				if co.pos == "in_fanout" {
+					// the node publishes to a topic it has not joined and X, a subscriber of it, becomes a fanout target
+					X.Send(me, vSubRPC(true, "f"))
+					vSettle(10 * time.Millisecond)
+					nd.ps.Publish("f", []byte("to-the-fanout"))
+					vSettle(10 * time.Millisecond)
+					if _, in := nd.Snap().Fanout["f"][X.ID()]; !in {
+						c.Inconclusive("X not in the fanout set")
 						return
 					}
 				}
